@@ -1,4 +1,6 @@
-use crate::ast::{BinaryOp, Commented, Expr, RecordEntry, RecordKey, SpannedExpr};
+use crate::ast::{
+    BinaryOp, Commented, Expr, PostfixOp, RecordEntry, RecordKey, SpannedExpr, UnaryOp,
+};
 use crate::ast_to_source::{
     ChildPosition, expr_to_source, format_record_key, lambda_body_needs_parens, needs_parens,
     needs_parens_in_binop,
@@ -96,8 +98,58 @@ fn format_single_line(expr: &SpannedExpr) -> String {
                 .collect();
             format!("{{{}}}", entries_str.join(", "))
         }
+        // expr_to_source drops the comments attached to list items and record entries,
+        // so anything that contains some has to be laid out on several lines
+        _ if contains_comments(expr) => "\n".to_string(), // Placeholder that forces multiline
         // For everything else, use the existing expr_to_source
         _ => expr_to_source(expr),
+    }
+}
+
+/// Check whether any list item or record entry inside the expression carries comments
+fn contains_comments(expr: &SpannedExpr) -> bool {
+    match &expr.node {
+        Expr::List(items) => items
+            .iter()
+            .any(|c| c.has_comments() || contains_comments(&c.node)),
+        Expr::Record(entries) => entries.iter().any(|c| {
+            c.has_comments()
+                || match &c.node.key {
+                    RecordKey::Static(_) => contains_comments(&c.node.value),
+                    RecordKey::Dynamic(key) => {
+                        contains_comments(key) || contains_comments(&c.node.value)
+                    }
+                    RecordKey::Shorthand(_) => false,
+                    RecordKey::Spread(inner) => contains_comments(inner),
+                }
+        }),
+        Expr::Lambda { body, .. } => contains_comments(body),
+        Expr::Conditional {
+            condition,
+            then_expr,
+            else_expr,
+        } => {
+            contains_comments(condition)
+                || contains_comments(then_expr)
+                || contains_comments(else_expr)
+        }
+        Expr::DoBlock {
+            statements,
+            return_expr,
+        } => {
+            statements.iter().any(|c| contains_comments(&c.node))
+                || contains_comments(&return_expr.node)
+        }
+        Expr::Assignment { value, .. } => contains_comments(value),
+        Expr::Output { expr } => contains_comments(expr),
+        Expr::Call { func, args } => contains_comments(func) || args.iter().any(contains_comments),
+        Expr::Access { expr, index } => contains_comments(expr) || contains_comments(index),
+        Expr::DotAccess { expr, .. } => contains_comments(expr),
+        Expr::BinaryOp { left, right, .. } => contains_comments(left) || contains_comments(right),
+        Expr::UnaryOp { expr, .. } | Expr::PostfixOp { expr, .. } | Expr::Spread(expr) => {
+            contains_comments(expr)
+        }
+        _ => false,
     }
 }
 
@@ -147,8 +199,45 @@ fn format_multiline(expr: &SpannedExpr, max_cols: usize, indent: usize) -> Strin
             statements,
             return_expr,
         } => format_do_block_multiline(statements, return_expr, max_cols, indent),
+        // Operators with a single operand: lay out the operand
+        Expr::UnaryOp { op, expr: inner } => {
+            let op_str = match op {
+                UnaryOp::Negate => "-",
+                UnaryOp::Not => "!",
+                UnaryOp::Invert => "~",
+            };
+            let inner_str = format_expr_impl(inner, max_cols, indent);
+            if needs_parens(inner, ChildPosition::Prefix) {
+                format!("{}({})", op_str, inner_str)
+            } else {
+                format!("{}{}", op_str, inner_str)
+            }
+        }
+        Expr::PostfixOp {
+            op: PostfixOp::Factorial,
+            expr: inner,
+        } => format!("{}!", format_postfix_operand(inner, max_cols, indent)),
+        Expr::Access { expr: inner, index } => format!(
+            "{}[{}]",
+            format_postfix_operand(inner, max_cols, indent),
+            format_expr_impl(index, max_cols, indent)
+        ),
+        Expr::DotAccess { expr: inner, field } => {
+            format!("{}.{}", format_postfix_operand(inner, max_cols, indent), field)
+        }
+        Expr::Spread(inner) => format!("...{}", format_expr_impl(inner, max_cols, indent)),
         // For other expression types, fall back to single-line
         _ => expr_to_source(expr),
+    }
+}
+
+/// Format the operand of a postfix operator, call, index or field access
+fn format_postfix_operand(expr: &SpannedExpr, max_cols: usize, indent: usize) -> String {
+    let formatted = format_expr_impl(expr, max_cols, indent);
+    if needs_parens(expr, ChildPosition::Postfix) {
+        format!("({})", formatted)
+    } else {
+        formatted
     }
 }
 
